@@ -173,7 +173,7 @@ _HIT_RULES = [
     (r'although width overflow is allowed|allow_width_overflow changed|^width 0 did not give', {'C11'}),
     (r'pad_block_width changed more than trailing spaces under overflow', {'C11', 'C15'}),
     (r'^with link footnotes: line .* columns wide', {'C02'}),
-    (r'^line .* is \d+ columns wide|^line .* wider than \d+', {'C02', 'C12', 'C07'}),
+    (r'^line .* is \d+ columns wide|^line .* wider than \d+', {'C02', 'C12', 'C07', 'C06'}),
     (r'^cell characters .* but output characters', {'C03', 'C06'}),
     (r'^lines of a side-by-side table differ|^first or last line is not a rule|but bar above=', {'C05', 'C06'}),
     (r'does not start with its prefix', {'C07', 'C16'}),
